@@ -418,6 +418,12 @@ func Select(arr, idx *Term) *Term {
 	if arr.Op == "constarr" {
 		return arr.Args[0]
 	}
+	if idx.Op == "ite" && idx.size < 400 {
+		return Ite(idx.Args[0], Select(arr, idx.Args[1]), Select(arr, idx.Args[2]))
+	}
+	if arr.Op == "ite" && arr.size < 400 {
+		return Ite(arr.Args[0], Select(arr.Args[1], idx), Select(arr.Args[2], idx))
+	}
 	return mk("select", "", arr.Sort.V, nil, nil, arr, idx)
 }
 
@@ -437,8 +443,19 @@ func Store(arr, idx, v *Term) *Term {
 	return mk("store", "", arr.Sort, nil, nil, arr, idx, v)
 }
 
-// App applies an uninterpreted function.
-func App(name string, res *Sort, args ...*Term) *Term { return mk("app", name, res, nil, nil, args...) }
+// App applies an uninterpreted function. An if-then-else argument is lifted out
+// (f(ite(c,a,b)) = ite(c,f(a),f(b))) so that quantifier triggers see the ground instances.
+func App(name string, res *Sort, args ...*Term) *Term {
+	for i, a := range args {
+		if a.Op == "ite" && a.Sort != SBool && a.size < 400 {
+			l := append([]*Term{}, args...)
+			r := append([]*Term{}, args...)
+			l[i], r[i] = a.Args[1], a.Args[2]
+			return Ite(a.Args[0], App(name, res, l...), App(name, res, r...))
+		}
+	}
+	return mk("app", name, res, nil, nil, args...)
+}
 
 func arith(op string, a, b *Term) *Term {
 	if a.Op == "int" && b.Op == "int" {
@@ -454,6 +471,9 @@ func arith(op string, a, b *Term) *Term {
 	}
 	if b.Op == "int" && b.IVal.Sign() == 0 && (op == "+" || op == "-") {
 		return a
+	}
+	if a.Op == "ite" && b.Op == "int" && a.size < 60 {
+		return Ite(a.Args[0], arith(op, a.Args[1], b), arith(op, a.Args[2], b))
 	}
 	if a.Op == "int" && a.IVal.Sign() == 0 && op == "+" {
 		return b
